@@ -36,6 +36,7 @@
 #include <vector>
 #include <csetjmp>
 #include <csignal>
+#include <fcntl.h>
 #include <unistd.h>
 #include <dispenso/platform.h>
 #define private public
@@ -43,7 +44,7 @@
 #undef private
 
 extern "C" const char* __asan_default_options() {
-  return "detect_leaks=0:max_malloc_fill_size=1048576:malloc_fill_byte=190:allocator_may_return_null=1:handle_segv=0:handle_sigbus=0:symbolize=0";
+  return "detect_leaks=0:max_malloc_fill_size=1048576:malloc_fill_byte=190:allocator_may_return_null=1:handle_segv=0:handle_sigbus=0:handle_abort=0:abort_on_error=1:symbolize=0";
 }
 
 struct E {
@@ -76,13 +77,22 @@ static void dump(const Arena& a) {
 
 static sigjmp_buf g_env;
 static volatile sig_atomic_t g_armed = 0;
-static void onSegv(int sig) {
+static void onSegv(int) {
   if (g_armed) {
     g_armed = 0;
     siglongjmp(g_env, 1);
   }
-  signal(sig, SIG_DFL);
-  raise(sig);
+  const char m[] = " CRASH\n";
+  ssize_t r = write(1, m, sizeof(m) - 1);
+  (void)r;
+  _exit(0);
+}
+// ASan error report (abort_on_error=1), assert, watchdog: close the line and stop; the driver restarts on the remaining cases
+static void onFatal(int) {
+  const char m[] = " CRASH\n";
+  ssize_t r = write(1, m, sizeof(m) - 1);
+  (void)r;
+  _exit(0);
 }
 
 static void runSeq(std::istringstream& in) {
@@ -241,6 +251,12 @@ int main() {
   sa.sa_flags = SA_NODEFER;
   sigaction(SIGSEGV, &sa, nullptr);
   sigaction(SIGBUS, &sa, nullptr);
+  signal(SIGABRT, onFatal);
+  signal(SIGALRM, onFatal);
+  if (!getenv("H_VERBOSE")) {  // ASan reports on stderr would be merged into the result lines
+    int fd = open("/dev/null", O_WRONLY);
+    if (fd >= 0) dup2(fd, 2);
+  }
   while (std::getline(std::cin, line)) {
     if (line.empty()) continue;
     std::istringstream in(line);
